@@ -51,7 +51,7 @@ def gen_ci(rng, R=None):
     bp = {"name": "Base", "version": rng.choice(["7", "22"]), "short": rng.choice(["RHEL", "f"]), "type": rng.choice(R["RELEASE_TYPES"])} \
         if (rel["is_layered"] or rng.random() < 0.2) else dict(FRESH_BP)
     tops = {}
-    for t in rng.sample(["Server", "Client", "Workstation", "AppStream"], rng.randint(1, 3)):
+    for t in rng.sample(["Server", "Client", "Workstation", "AppStream", "HA", "SAP"], rng.randint(1, 3)):      # ids are unique among siblings only
         arches = sorted(rng.sample(ARCHES, rng.randint(1, 3)))
         tops[t] = gen_tree(rng, R, t, t, arches, 1, top=True)
     free = [t for t in tops if "optional" not in tops[t][3]]
